@@ -18,6 +18,8 @@ func checkC20(c *Ctx) {
 	c.Assume = append(c.Assume, "n < 2^52 so that int->float64 conversion, division by 2.0 and math.Ceil are exact")
 	c.Expect("C20.1", 24)
 	c.Expect("C20.2", 8)
+	// what the forming side counts: the timeout collector's quorum is over the timeouts of one view (C08.3)
+	c.importFrom(checkC08, "C20.3", "C08.3")
 
 	nf := p.Func("", "NumFaulty")
 	qs := p.Func("", "QuorumSize")
